@@ -266,3 +266,26 @@ pub fn field_constants() -> Vec<(&'static str, Fe)> {
     v.push(("MONTGOMERY_A_NEG", Fe(k::MONTGOMERY_A_NEG)));
     v
 }
+
+// ------------------------------------------------------------------------------------------
+// H2: run-time dispatch override
+// ------------------------------------------------------------------------------------------
+
+std::thread_local! {
+    static FORCED_BACKEND: core::cell::Cell<u8> = const { core::cell::Cell::new(0) };
+}
+
+/// Force the run-time dispatcher of the calling thread: 0 = automatic, 1 = serial,
+/// 2 = AVX2 (only meaningful in builds that contain it; the caller must have checked the CPU).
+pub fn force_backend(kind: u8) {
+    FORCED_BACKEND.with(|c| c.set(kind));
+}
+
+pub(crate) fn forced_backend() -> u8 {
+    FORCED_BACKEND.with(|c| c.get())
+}
+
+/// What the dispatcher selects right now on this thread (0 = serial, 2 = AVX2, 3 = IFMA).
+pub fn selected_backend() -> u8 {
+    crate::backend::verif_selected_backend()
+}
